@@ -157,10 +157,11 @@ Definition assign_to_bytes (dst : dest) (src : source) : out (option effect) :=
     | SVal (VStr s) => eff (VBytes s) OSrc            (* case string *)
     | _ =>                                            (* default *)
       match buf with
-      | None =>                                       (* p, err = x2bytes.ToBytes(p[:0], src) *)
+      | None =>                                       (* var p []byte; p, err = x2bytes.ToBytes(p, src)  (since fix 53615f7;
+                                                         before it: ToBytes(p[:0], src) on the destination's own array) *)
         bind (to_bytes src) (fun ot =>
           match ot with
-          | Some t => eff (VBytes t) (if slen t <=? dcap then OOld else OFresh)
+          | Some t => eff (VBytes t) (if slen t <=? dcap then OFresh else OFresh)   (* whether it would have fitted no longer matters *)
           | None => Ret None
           end)
       | Some pre => buffered VBytes pre src
